@@ -31,6 +31,7 @@ type Job struct {
 // RunRecord is one line of worker output.
 type RunRecord struct {
 	Run        uint64         `json:"run"`
+	Sub        int            `json:"sub"`
 	Batch      string         `json:"batch"`
 	Outcome    string         `json:"outcome"` // ok | violation | excluded | infra
 	Reason     string         `json:"reason,omitempty"`
@@ -61,6 +62,12 @@ type Engine interface {
 	Run(t *testing.T, batch string, tape *rt.Tape, runIdx uint64, extra json.RawMessage, trace func(string)) RunRecord
 }
 
+// SubRunner is implemented by engines whose unit of work expands into several
+// executions (crash-point enumeration along one base execution).
+type SubRunner interface {
+	SubRuns(batch string, runIdx uint64, extra json.RawMessage) []json.RawMessage
+}
+
 var engines = map[string]Engine{}
 
 // ReplayFile is the on-disk form of a violating run.
@@ -70,6 +77,7 @@ type ReplayFile struct {
 	Batch         string          `json:"batch"`
 	Seed          uint64          `json:"seed"`
 	RunIndex      uint64          `json:"run_index"`
+	Sub           int             `json:"sub"`
 	Extra         json.RawMessage `json:"extra,omitempty"`
 	Violation     Violation       `json:"violation"`
 	AllViolations []Violation     `json:"all_violations,omitempty"`
@@ -173,6 +181,9 @@ func writeReplay(dir string, rf *ReplayFile) (string, error) {
 		return "", err
 	}
 	name := fmt.Sprintf("%s/%s-%s-%d-%d.json", dir, rf.Property, rf.Batch, rf.Seed, rf.RunIndex)
+	if rf.Sub >= 0 {
+		name = fmt.Sprintf("%s/%s-%s-%d-%d.%d.json", dir, rf.Property, rf.Batch, rf.Seed, rf.RunIndex, rf.Sub)
+	}
 	b, err := json.Marshal(rf)
 	if err != nil {
 		return "", err
